@@ -18,7 +18,7 @@ import (
 )
 
 // AllVariants lists the corpus variants (DESIGN.md 3.1).
-var AllVariants = []string{"vtu", "vtw", "vocc", "voco", "vocu", "voccw"}
+var AllVariants = []string{"vtu", "vtw", "vocc", "voco", "vocu", "voccw", "vtu2"}
 
 // PickVariant draws one of the named variants.
 func PickVariant(rt *rapid.T, names ...string) *model.Variant {
